@@ -4,7 +4,18 @@
   * `default_order` — without the option the table ends up in the models' column order (corollary of C01's core);
   * `ignore_same_statements` — with the option the walk emits the same statements with the positional clause removed;
   * `ignore_appends` — executed, it keeps the surviving columns in place and appends the added ones.
+
+  * `option_changes_positions_only` / `option_predicates` — **on the implementation model, for every pair of scripts,
+    every dialect model and keyword case, with no hypothesis at all** (Proofs/IgnoreOrder.lean): `modelUp` and
+    `modelDown` under the option return exactly what they return without it with every positional clause removed
+    (`Spec.stripPosition`; an error without the option is the same error with it), hence the two executable predicates
+    of C13 under the option — `c13Same` (the two settings give the same statements up to the positional clause) and
+    `c13NoPositions` (no positional clause at all) — hold of the model's output whenever it prints without the option.
+    The option is read in two places only, `walkCols` and `Column.migrationUpAlter`; everything else — readers,
+    `Diff`, `Arrange`, the index and key walks, CREATE TABLE — does not see it and prints no ADD COLUMN.
 -/
+import SqlizeModel.Proofs.IgnoreOrder
+import SqlizeModel.Props.C01
 import SqlizeModel.Abs.Columns
 import SqlizeModel.Proofs.WalkRefine
 import SqlizeModel.Proofs.EndToEnd
@@ -62,5 +73,32 @@ theorem columns_from_scripts (g : Globals) (hg : g.dialect = .mysql) (hio : g.ig
   columns_end_to_end_ignore g hg hio rc old new dbO dbN ho hn heo hen d hd t tbO tbN hfo hfn hc hne
 
 example : Abs.emitUpIgnore (Abs.tagged ["z", "a", "b"] ["a", "c", "b"]) = [.appendCol "z", .dropCol "c"] := by decide
+
+/-- the option only removes positional clauses: up and down, every input -/
+theorem option_changes_positions_only (g : Globals) (old new : List Stmt) :
+    modelUp (g.ign true) old new = (modelUp (g.ign false) old new).map (List.map Spec.stripPosition) ∧
+    modelDown (g.ign true) old new = (modelDown (g.ign false) old new).map (List.map Spec.stripPosition) :=
+  ⟨modelUp_ign g old new, modelDown_ign g old new⟩
+
+/-- the executable predicates of C13 under the option hold of the model's output -/
+theorem option_predicates (g : Globals) (old new u dn : List Stmt)
+    (hu : modelUp (g.ign false) old new = .ok u) (hd : modelDown (g.ign false) old new = .ok dn) :
+    ∃ ui di, modelUp (g.ign true) old new = .ok ui ∧ modelDown (g.ign true) old new = .ok di ∧
+      Spec.c13Same u ui = .ok () ∧ Spec.c13Same dn di = .ok () ∧ Spec.c13NoPositions (ui ++ di) = .ok () := by
+  obtain ⟨ui, h1, h2, _⟩ := c13_option_up g old new u hu
+  obtain ⟨di, h3, h4, _⟩ := c13_option_down g old new dn hd
+  refine ⟨ui, di, h1, h3, h2, h4, ?_⟩
+  have e1 : ui = u.map Spec.stripPosition := by
+    have := modelUp_ign g old new; rw [hu, h1] at this; exact Except.ok.inj this
+  have e2 : di = dn.map Spec.stripPosition := by
+    have := modelDown_ign g old new; rw [hd, h3] at this; exact Except.ok.inj this
+  rw [e1, e2, ← List.map_append]
+  exact c13NoPositions_strip _
+
+-- non-vacuity: a pair whose up migration adds columns at positions (FIRST / AFTER) prints without the option, and the
+-- statements under the option are the stripped ones
+example : ∃ u ui, modelUp {} C01.exOldW C01.exNewW = .ok u ∧ modelUp { ignoreOrder := true } C01.exOldW C01.exNewW = .ok ui ∧
+    (u.filter Spec.hasPosition).length = 1 ∧ (ui.filter Spec.hasPosition).length = 0 ∧ ui = u.map Spec.stripPosition :=
+  ⟨_, _, by rfl, by rfl, by decide, by decide, by decide⟩
 
 end Sqlize.C13
